@@ -145,4 +145,5 @@ TREE_OPS_FOR = {"C14": ["show"], "C09": ["hash_cmp"], "C10": ["hash_cmp"], "C01"
 
 def tree_jobs(tier, prop):
     # the properties that share the Tree harness take the shapes up to 5 nodes in the quick tier (C03 itself: 6)
-    return jobs(tier, only_ops=TREE_OPS_FOR[prop], prefix=prop + ".Tree", nmax_quick=5)
+    # C11: backward iteration needs a left child whose right child has a right child - 6 nodes (seed C11-tree-iter-prev-single-step)
+    return jobs(tier, only_ops=TREE_OPS_FOR[prop], prefix=prop + ".Tree", nmax_quick=(6 if prop == "C11" else 5))
